@@ -44,7 +44,10 @@ class insert_token_next_to_token_if_it_does_not_exist_between_tokens_using_value
 
     def _get_tokens_of_interest(self, oFile):
         if self._remove_keyword():
-            return oFile.get_token_and_n_tokens_before_it([self.insert_token], 1)
+            lToi = oFile.get_token_and_n_tokens_before_it([self.insert_token], 1)
+            if self.direction == "right":
+                lToi = [oToi for oToi in lToi if token_follows_anchor_token(oToi, oFile.lAllObjects, self.anchor_token)]
+            return lToi
         else:
             return self._get_add_tokens_of_interest(oFile)
 
@@ -68,6 +71,14 @@ class insert_token_next_to_token_if_it_does_not_exist_between_tokens_using_value
         if self.action == "remove":
             return True
         return False
+
+
+def token_follows_anchor_token(oToi, lAllTokens, oAnchorToken):
+    # The optional token is the last token of the region, only whitespace and comments may separate it from the anchor
+    iIndex = oToi.get_start_index() + len(oToi.get_tokens()) - 2
+    while iIndex >= 0 and utils.token_is_whitespace_or_comment(lAllTokens[iIndex]):
+        iIndex -= 1
+    return iIndex >= 0 and isinstance(lAllTokens[iIndex], oAnchorToken)
 
 
 def filter_toi(filter_tokens, lToi):
